@@ -641,7 +641,11 @@ func c04Scenario(c *Ctx, idx int, r *Rng) (mlines, mimpl, mcase []string) {
 					fail("a read-only working file changed its permission bits", fmt.Sprintf("%s: %o -> %o", f.path, f.mode, fi.Mode().Perm()))
 				}
 			}
-			// model line
+			// model line — not for a pull that FAILED because the server would not hand out one object: which files it
+			// still materialised before giving up is not what Co.run describes
+			if noActionSet && ccode != 0 {
+				continue
+			}
 			state := "a0"
 			if f.mutation == "git-rm" {
 				state = "a1"
